@@ -17,27 +17,27 @@ type E = ref.Expr
 
 // ---- constructors ----
 
-func Lit(s string) *E            { return &E{K: ref.KLit, Lit: []rune(s)} }
-func ILit(s string) *E           { return &E{K: ref.KLit, Lit: []rune(s), Fold: true} }
-func Dot() *E                    { return &E{K: ref.KDot} }
-func Empty() *E                  { return &E{K: ref.KEmpty} }
-func Seq(k ...*E) *E             { return &E{K: ref.KSeq, Kids: k} }
-func Alt(k ...*E) *E             { return &E{K: ref.KAlt, Kids: k} }
-func Opt(e *E) *E                { return &E{K: ref.KOpt, Kids: []*E{e}} }
-func Star(e *E) *E               { return &E{K: ref.KStar, Kids: []*E{e}} }
-func Plus(e *E) *E               { return &E{K: ref.KPlus, Kids: []*E{e}} }
-func And(e *E) *E                { return &E{K: ref.KAnd, Kids: []*E{e}} }
-func Not(e *E) *E                { return &E{K: ref.KNot, Kids: []*E{e}} }
-func Cap(e *E) *E                { return &E{K: ref.KCap, Kids: []*E{e}} }
-func Ref(rule int) *E            { return &E{K: ref.KRef, Rule: rule} }
-func Act() *E                    { return &E{K: ref.KAct} } // numbered by Finish
-func Pred(i int) *E              { return &E{K: ref.KPred, Idx: i} }
-func State() *E                  { return &E{K: ref.KState} }
-func Class(r ...ref.Range) *E    { return &E{K: ref.KClass, Ranges: r} }
-func NClass(r ...ref.Range) *E   { return &E{K: ref.KClass, Ranges: r, Neg: true} }
-func IClass(r ...ref.Range) *E   { return &E{K: ref.KClass, Ranges: r, Fold: true} }
-func R(lo, hi rune) ref.Range    { return ref.Range{Lo: lo, Hi: hi} }
-func C(c rune) ref.Range         { return ref.Range{Lo: c, Hi: c} }
+func Lit(s string) *E          { return &E{K: ref.KLit, Lit: []rune(s)} }
+func ILit(s string) *E         { return &E{K: ref.KLit, Lit: []rune(s), Fold: true} }
+func Dot() *E                  { return &E{K: ref.KDot} }
+func Empty() *E                { return &E{K: ref.KEmpty} }
+func Seq(k ...*E) *E           { return &E{K: ref.KSeq, Kids: k} }
+func Alt(k ...*E) *E           { return &E{K: ref.KAlt, Kids: k} }
+func Opt(e *E) *E              { return &E{K: ref.KOpt, Kids: []*E{e}} }
+func Star(e *E) *E             { return &E{K: ref.KStar, Kids: []*E{e}} }
+func Plus(e *E) *E             { return &E{K: ref.KPlus, Kids: []*E{e}} }
+func And(e *E) *E              { return &E{K: ref.KAnd, Kids: []*E{e}} }
+func Not(e *E) *E              { return &E{K: ref.KNot, Kids: []*E{e}} }
+func Cap(e *E) *E              { return &E{K: ref.KCap, Kids: []*E{e}} }
+func Ref(rule int) *E          { return &E{K: ref.KRef, Rule: rule} }
+func Act() *E                  { return &E{K: ref.KAct} } // numbered by Finish
+func Pred(i int) *E            { return &E{K: ref.KPred, Idx: i} }
+func State() *E                { return &E{K: ref.KState} }
+func Class(r ...ref.Range) *E  { return &E{K: ref.KClass, Ranges: r} }
+func NClass(r ...ref.Range) *E { return &E{K: ref.KClass, Ranges: r, Neg: true} }
+func IClass(r ...ref.Range) *E { return &E{K: ref.KClass, Ranges: r, Fold: true} }
+func R(lo, hi rune) ref.Range  { return ref.Range{Lo: lo, Hi: hi} }
+func C(c rune) ref.Range       { return ref.Range{Lo: c, Hi: c} }
 
 func Clone(e *E) *E {
 	if e == nil {
@@ -55,10 +55,10 @@ func Clone(e *E) *E {
 
 // Grammar is a family member.
 type Grammar struct {
-	G     *ref.Grammar
-	Tag   string // where it came from (layer / shape name)
-	NSw   int    // number of predicate switches used
-	NAct  int
+	G      *ref.Grammar
+	Tag    string // where it came from (layer / shape name)
+	NSw    int    // number of predicate switches used
+	NAct   int
 	HasCap bool
 }
 
